@@ -59,6 +59,8 @@ Definition kill_silently (s : mstate) : mstate :=
   mkM (m_ever s) true (m_head s) (m_frame s) (m_fin s) (m_resp s) (m_buf s)
       (m_fired s) (m_delivered s) (m_closed s) (m_received s) (m_asked s).
 
+Definition is_nil_list {A} (l : list A) : bool := match l with [] => true | _ => false end.
+
 Definition is_unfired (s : xstate) : bool := match request_fired s with [] => true | _ => false end.
 
 Section Protocol.
@@ -178,3 +180,47 @@ Section Protocol.
         end
     end.
 End Protocol.
+
+(** * two requests on one connection: the second one issued by the application from inside the
+      first response's body consumer (re-entrantly), or after the first exchange.
+
+    HTTP11ClientProtocol.request refuses (RequestNotSent) unless the state is QUIESCENT.  When a
+    response is complete the state becomes QUIESCENT and the per-request attributes are cleared
+    BEFORE the consumer is told (HTTPClientParser.connectionLost is the last thing
+    _disconnectParser does), so a request issued from the consumer's connectionLost runs on a clean
+    protocol: it is modelled as a fresh [play] from the initial state. *)
+Inductive trigger :=
+| TrClose                (* from the first consumer's connectionLost *)
+| TrLastData (n : nat)   (* from its dataReceived, when the n-th (= last) body byte has arrived *)
+| TrEnd.                 (* after the first exchange's events *)
+
+Definition hit (tr : trigger) (s s' : xstate) : bool :=
+  match tr with
+  | TrClose => is_nil_list (m_closed (x_in s)) && negb (is_nil_list (m_closed (x_in s')))
+  | TrLastData n => Nat.ltb (length (m_delivered (x_in s))) n && Nat.leb n (length (m_delivered (x_in s')))
+  | TrEnd => false
+  end.
+
+(** run the first exchange; report the protocol state at the moment the trigger fires *)
+Fixpoint run_until (tr : trigger) (evs : list xev) (s : xstate) : xstate * option pst :=
+  match evs with
+  | [] => (s, match tr with TrEnd => Some (x_pst s) | _ => None end)
+  | e :: r =>
+      let s' := xstep false s e in
+      if hit tr s s' then (xrun false s' r, Some (x_pst s')) else run_until tr r s'
+  end.
+
+Inductive second_outcome :=
+| NotIssued                       (* the trigger never fired *)
+| NotSent                         (* RequestNotSent: the protocol was not QUIESCENT *)
+| Ran (s : xstate).               (* accepted: a fresh exchange *)
+
+Definition two_requests (hm1 : bool) (cs1 : list bytes) (t1 : dtime) (tr : trigger)
+           (hm2 transmitting2 : bool) (ops2 : list op) : xstate * second_outcome :=
+  let '(s1, at_issue) := run_until tr (map XP (session hm1 [] cs1 t1 false)) xinit_waiting in
+  (s1, match at_issue with
+       | None => NotIssued
+       | Some SQuiescent =>
+           Ran (play false hm2 ops2 pinit (if transmitting2 then xinit_transmitting else xinit_waiting))
+       | Some _ => NotSent
+       end).
